@@ -403,6 +403,129 @@ def c_escape(rec, name, a, kw, res, exc):
             rec.fail(name, "undocumented_exception", exc_sig(exc), data=bytes(data)[:64])
 
 
+def c_parser(fn, name):
+    """parse_space_packets: nothing is invented, duplicated or reordered by one call (valid for any stream, with or without garbage)."""
+    @functools.wraps(fn)
+    def wrapper(analysis_queue, packet_ids, *a, **kw):
+        try:
+            before = b"".join(bytes(x) for x in analysis_queue)
+        except Exception:
+            before = None
+        res = fn(analysis_queue, packet_ids, *a, **kw)
+        try:
+            if before is not None:
+                REC.ev(name)
+                after = b"".join(bytes(x) for x in analysis_queue)
+                pos = 0
+                ok = True
+                for pkt in res:
+                    j = before.find(bytes(pkt), pos)
+                    if j < 0:
+                        ok = False
+                        break
+                    pos = j + len(pkt)
+                if not ok:
+                    REC.fail(name, "returned_packet_is_not_a_substring_of_the_input_in_order", "", before=before[:120], returned=[bytes(x).hex()[:60] for x in res][:5])
+                elif after and not before[pos:].endswith(after):
+                    REC.fail(name, "queue_tail_is_not_a_suffix_of_the_unconsumed_input", "", before=before[:120], after=after[:120])
+                elif len(after) + sum(len(x) for x in res) > len(before):
+                    REC.fail(name, "more_octets_out_than_in", "", before=len(before), after=len(after))
+        except Exception:
+            pass
+        return res
+    return wrapper
+
+
+def c_verif_add_tm(rec, name, a, kw, res, exc):
+    """Model-independent invariants of the tracker, checked on every add_tm call of anybody."""
+    # pre-state is captured by the pre-hook below (stored on the instance)
+    v = a[0]
+    pre = v.__dict__.pop("_spv_pre", None)
+    if exc is not None or pre is None:
+        return rec.skip(name)
+    rec.ev(name)
+    tm = a[1] if len(a) > 1 else kw.get("pus_1_tm")
+    own = bytes(tm.tc_req_id.pack())
+    now = {bytes(k.pack()): (bool(s.all_verifs_recvd), int(s.accepted), int(s.started), int(s.step), tuple(s.step_list), int(s.completed)) for k, s in v.verif_dict.items()}
+    for k, st in pre.items():
+        if k != own and now.get(k) != st:
+            return rec.fail(name, "report_changed_other_telecommand", f"sub={int(tm.subservice)}")
+    if own in pre and own in now:
+        if pre[own][0] and not now[own][0]:
+            rec.fail(name, "all_verifs_recvd_reverted", f"sub={int(tm.subservice)}")
+        if pre[own][3] == 0 and now[own][3] != 0:
+            rec.fail(name, "failed_step_overwritten", f"sub={int(tm.subservice)}")
+    if res is not None and bool(res.completed) != (int(tm.subservice) in (2, 4, 6, 7, 8)):
+        rec.fail(name, "completed_flag_wrong_for_subservice", f"sub={int(tm.subservice)}")
+    if (res is None) != (own not in pre):
+        rec.fail(name, "unknown_vs_known_answer", "")
+
+
+def _pre_verif(cls):
+    orig = cls.add_tm
+
+    @functools.wraps(orig)
+    def add_tm(self, *a, **kw):
+        try:
+            self.__dict__["_spv_pre"] = {bytes(k.pack()): (bool(s.all_verifs_recvd), int(s.accepted), int(s.started), int(s.step), tuple(s.step_list), int(s.completed))
+                                         for k, s in self.verif_dict.items()}
+        except Exception:
+            pass
+        return orig(self, *a, **kw)
+    cls.add_tm = add_tm
+
+
+def c_seq(rec, name, a, kw, res, exc):
+    p = a[0]
+    if exc is not None:
+        return rec.skip(name)
+    rec.ev(name)
+    w = p.max_bit_width
+    if not (isinstance(res, int) and 0 <= res < (1 << w)):
+        return rec.fail(name, "returned_count_out_of_range", f"{type(p).__name__}", observed=res, width=w)
+    fn = getattr(p, "file_name", None)
+    if fn is not None:
+        try:
+            with open(fn, "rb") as f:
+                line = f.readline().strip()
+            if line != str((res + 1) % (1 << w)).encode():
+                rec.fail(name, "file_does_not_hold_next_count", "", observed=line, returned=res, width=w)
+        except OSError:
+            pass
+
+
+def c_uslp_hdr_pack(rec, name, a, kw, res, exc):
+    h = a[0]
+    if exc is not None:
+        return rec.skip(name)
+    try:
+        from spverif.ref import uslp as U
+        n = h.vcf_count_len
+        if not (0 <= h.scid < 65536 and 0 <= h.vcid < 64 and 0 <= h.map_id < 16 and 0 <= h.frame_len < 65536 and 0 <= n < 8 and (n == 0 or 0 <= h.vcf_count < (1 << 8 * n))):
+            return rec.skip(name)
+        want = U.primary_header(h.scid, int(h.src_dest), h.vcid, h.map_id, h.frame_len, int(h.bypass_seq_ctrl_flag), int(h.prot_ctrl_cmd_flag), int(bool(h.op_ctrl_flag)), n,
+                                h.vcf_count if n else 0)
+    except Exception:
+        return rec.skip(name)
+    rec.ev(name)
+    if bytes(res) != want or h.len() != len(want):
+        rec.fail(name, "octets_differ_from_model", f"vcf_len={n}", observed=bytes(res), expected=want)
+
+
+def c_factory(rec, name, a, kw, res, exc):
+    data = a[0] if a else kw.get("data")
+    if exc is not None or res is None:
+        return rec.skip(name)
+    rec.ev(name)
+    try:
+        d = R.decode_header(bytes(data))
+    except R.RefError:
+        return rec.fail(name, "header_refused_by_model_but_factory_returned_object", "")
+    want = "FileDataPdu" if d["pdu_type"] == 1 else {4: "EofPdu", 5: "FinishedPdu", 6: "AckPdu", 7: "MetadataPdu", 8: "NakPdu", 9: "PromptPdu", 12: "KeepAlivePdu"}.get(bytes(data)[d["header_len"]])
+    if type(res).__name__ != want:
+        rec.fail(name, "wrong_pdu_kind", f"{type(res).__name__}_for_{want}", data=bytes(data)[:40])
+
+
 def install():
     """Wrap the real callables in place.  Returns the number of wrapped targets."""
     from spacepackets.ccsds.spacepacket import SpacePacketHeader
@@ -449,6 +572,25 @@ def install():
     for owner, attr, name, chk in table:
         _post(owner, attr, name, chk)
         n += 1
+    # C12 factory, C16 tracker, C17 USLP header, C19 counters, C13 parser
+    from spacepackets.cfdp.pdu import PduFactory
+    from spacepackets.ecss.pus_verificator import PusVerificator
+    from spacepackets.uslp.header import PrimaryHeader
+    from spacepackets import seqcount
+    import spacepackets.ccsds.spacepacket as spmod
+    _post(PduFactory, "from_raw", "C12:contract.factory.kind", c_factory)
+    _pre_verif(PusVerificator)
+    _post(PusVerificator, "add_tm", "C16:contract.tracker.invariants", c_verif_add_tm)
+    _post(PrimaryHeader, "pack", "C17:contract.PrimaryHeader.pack", c_uslp_hdr_pack)
+    _post(seqcount.SeqCountProvider, "get_and_increment", "C19:contract.counter.range_and_file", c_seq)
+    _post(seqcount.FileSeqCountProvider, "get_and_increment", "C19:contract.counter.range_and_file", c_seq)
+    n += 5
+    orig_parse = spmod.parse_space_packets
+    wrapped_parse = c_parser(orig_parse, "C13:contract.parser.no_invention")
+    for mod in list(sys.modules.values()):
+        if mod is not None and getattr(mod, "__name__", "").startswith(("spacepackets", "tests")) and getattr(mod, "parse_space_packets", None) is orig_parse:
+            setattr(mod, "parse_space_packets", wrapped_parse)
+            n += 1
     # CRC function: rebind in every module that imported the name
     orig = crcmod_holder.CRC16_CCITT_FUNC
     wrapped = c_crc(orig, "C04:contract.crc_function_vs_model")
